@@ -140,7 +140,7 @@ def _pp(pair):
 
 
 def run_shard(shard, tier):
-    return e1.run_shard_generic(shard, tier, ID, check_case, variants=('truthy-cells',))
+    return e1.run_shard_generic(shard, tier, ID, check_case, variants=('truthy-cells', 'used'))
 
 
 def main(tier):
